@@ -715,6 +715,9 @@ impl Gen<'_> {
             }
         } else if self.r.pct(6) {
             (self.r.range(1, 64), self.r.range(1, 64))
+        } else if self.r.pct(2) {
+            // now and then an image of several thousand pixels (size thresholds of fast paths)
+            (self.r.range(48, 96), self.r.range(48, 96))
         } else {
             (self.r.range(1, self.maxdim), self.r.range(1, self.maxdim))
         };
